@@ -519,4 +519,12 @@ func sourceMappingComment(r *Rng, m []byte, css bool) []byte {
 	return []byte("\n//# sourceMappingURL=" + url + "\n")
 }
 
+func sourceMappingCommentWith(m []byte, css bool) []byte {
+	url := "data:application/json;base64," + base64.StdEncoding.EncodeToString(m)
+	if css {
+		return []byte("\n/*# sourceMappingURL=" + url + " */\n")
+	}
+	return []byte("\n//# sourceMappingURL=" + url + "\n")
+}
+
 func readFileOr(p string) []byte { b, _ := os.ReadFile(p); return b }
